@@ -19,6 +19,9 @@ RULE = (
 RULE += (
     ' Also DEADLIB: code dropped at compile time (6 constant guards) that mentions a library function which has one live call site, in terminating and endless programs.'
 )
+RULE += (
+    ' DEAD has an action whose callee contains an @emit_code call (raw lines must not be emitted for code that is never compiled).'
+)
 ASSUME = [
     "reference IC10 machine M and reference executor R as in C01; running past the last line halts the chip",
     "instruction owners come from the harness-side wrapper of generate_code.assign_registers",
